@@ -60,15 +60,13 @@ def lit_neg(lit: int) -> int:
 
 def luby(i: int) -> int:
     """Luby restart sequence: 1,1,2,1,1,2,4,1,1,2,1,1,2,4,8,..."""
-    k = 1
     while True:
+        k = 1
+        while (1 << k) - 1 < i:
+            k += 1
         if i == (1 << k) - 1:
             return 1 << (k - 1)
-        if i >= (1 << (k - 1)):
-            i -= (1 << (k - 1)) - 1
-            k = 1
-        else:
-            k += 1
+        i -= (1 << (k - 1)) - 1
 
 
 class BinaryImplications:
